@@ -58,7 +58,7 @@ fn n(v: &Value, k: &str) -> i64 {
 pub fn arity(tok: &Value) -> usize {
     let k = s(tok, "k");
     match k.as_str() {
-        | "var" | "int" | "unit" | "str" | "tyterm" => 0,
+        | "var" | "int" | "unit" | "str" | "tyterm" | "import" => 0,
         | "thunk" | "ret" | "lam" | "force" | "exit" | "ctor" | "dtor" | "fix" | "i2s" => 1,
         | "do" | "app" | "let" | "arith" | "pair" | "matchP" | "wl" | "sapp" => 2,
         | "br" => 4,
@@ -170,7 +170,7 @@ impl Renderer {
     fn synth(node: &Node) -> bool {
         match s(&node.tok, "k").as_str() {
             | "var" | "int" | "unit" | "str" => true,
-            | "ctor" | "comatch" => false,
+            | "ctor" | "comatch" | "import" => false,
             | "thunk" | "ret" | "force" | "dtor" => Self::synth(&node.kids[0]),
             | "pair" => node.kids.iter().all(Self::synth),
             | "lam" | "fix" => Self::synth(&node.kids[0]),
@@ -191,6 +191,7 @@ impl Renderer {
             | "int" => json!({"t":"int"}),
             | "unit" => json!({"t":"unit"}),
             | "str" => json!({"t":"str"}),
+            | "import" => t["ty"].clone(),
             | "thunk" => json!({"t":"thk","c":t["c"]}),
             | "ctor" => json!({"t":"data","n":t["d"]}),
             | "pair" => json!({"t":"pair","a":t["a"],"b":t["b"]}),
@@ -238,6 +239,7 @@ impl Renderer {
             | "unit" => "()".into(),
             | "str" => format!("\"{}\"", s(t, "s")),
             | "tyterm" => s(t, "w"),
+            | "import" => wrap(format!("@(import(\"{}\"))", s(t, "path")), &t["ty"]),
             | "thunk" => {
                 let b = self.term(&node.kids[0], ctx, tys);
                 wrap(format!("{{ {b} }}"), &json!({"t":"thk","c":t["c"]}))
@@ -654,4 +656,191 @@ pub fn render_core(cases_path: &str, dir: &str, ann: Ann, naming: Naming) {
         std::fs::write(format!("{dir}/p{idx}.zy"), r.program(&root)).expect("write");
     }
     println!("render-core: {}", cases.len());
+}
+
+// ------------------------------------------------------------------------------------------------
+// C09, semantic half: an import occurrence means what pasting the provider's closed term would mean.
+
+const PROVIDER_PRELUDE: &str = r#"let Thk = @(import("/repo/lib/std/builtin/intrinsic/thk.zy")) in
+let Ret = @(import("/repo/lib/std/builtin/intrinsic/ret.zy")) in
+let Int64 = @(import("/repo/lib/std/builtin/intrinsic/i64.zy")) in
+let Unit = @(import("/repo/lib/std/builtin/intrinsic/unit.zy")) in
+let String = @(import("/repo/lib/std/builtin/intrinsic/string.zy")) in
+let B = data | +T : Unit | +F : Int64 end in
+let O = data | +N : Unit | +J : Int64 * Int64 | +K : B end in
+let S = codata | .fst : Ret Int64 | .snd : Int64 -> Ret Int64 end in
+"#;
+
+fn closed_and_pure(node: &Node, depth: usize) -> bool {
+    let k = s(&node.tok, "k");
+    if matches!(k.as_str(), "arith" | "i2s" | "sapp" | "exit" | "wl" | "br" | "tyterm") {
+        return false;
+    }
+    if k == "var" && (n(&node.tok, "i") as usize) <= depth {
+        return false;
+    }
+    node.kids.iter().all(|c| closed_and_pure(c, depth))
+}
+fn mentions_os(v: &Value) -> bool {
+    match v {
+        | Value::Object(m) => m.get("t").map(|t| t == "os").unwrap_or(false) || m.values().any(mentions_os) || m.get("d").map(|d| d == "P").unwrap_or(false) || m.get("n").map(|d| d == "P").unwrap_or(false),
+        | Value::Array(a) => a.iter().any(mentions_os),
+        | _ => false,
+    }
+}
+fn tree_mentions_os(node: &Node) -> bool {
+    mentions_os(&node.tok) || node.kids.iter().any(tree_mentions_os)
+}
+fn shift(node: &Node, by: usize) -> Node {
+    let mut tok = node.tok.clone();
+    if s(&tok, "k") == "var" {
+        tok["i"] = json!(n(&tok, "i") as usize - by);
+    }
+    Node { tok, kids: node.kids.iter().map(|c| shift(c, by)).collect() }
+}
+/// First `let` (preorder) whose bound value is closed and free of host operations: returns the
+/// tree with that value replaced by an import token, the value (renumbered) and its type.
+fn split_first(node: &Node, depth: usize) -> Option<(Node, Node, Value)> {
+    let k = s(&node.tok, "k");
+    if k == "let" && closed_and_pure(&node.kids[0], depth) && !tree_mentions_os(&node.kids[0]) && s(&node.kids[0].tok, "k") != "var" {
+        let ty = node.tok["a"].clone();
+        if !mentions_os(&ty) {
+            let imp = Node { tok: json!({"k":"import","path":"prov.zy","ty":ty}), kids: vec![] };
+            let new = Node { tok: node.tok.clone(), kids: vec![imp, node.kids[1].clone()] };
+            return Some((new, shift(&node.kids[0], depth), ty));
+        }
+    }
+    // binders introduced by this node for each child
+    let binds: Vec<usize> = match k.as_str() {
+        | "lam" | "fix" => vec![1],
+        | "do" | "let" => vec![0, 1],
+        | "matchP" => vec![0, 2],
+        | "match" => std::iter::once(0).chain(std::iter::repeat(1)).take(node.kids.len()).collect(),
+        | _ => vec![0; node.kids.len()],
+    };
+    for (i, c) in node.kids.iter().enumerate() {
+        if let Some((nc, v, ty)) = split_first(c, depth + binds[i]) {
+            let mut kids = node.kids.clone();
+            kids[i] = nc;
+            return Some((Node { tok: node.tok.clone(), kids }, v, ty));
+        }
+    }
+    None
+}
+
+fn shift_up(node: &Node) -> Node {
+    let mut tok = node.tok.clone();
+    if s(&tok, "k") == "var" {
+        tok["i"] = json!(n(&tok, "i") as usize + 1);
+    }
+    Node { tok, kids: node.kids.iter().map(shift_up).collect() }
+}
+fn other_type(t: &Value) -> Value {
+    if t["t"] == "int" { json!({"t":"unit"}) } else { json!({"t":"int"}) }
+}
+
+/// zyconf replay-split CASES SUMMARY
+pub fn replay_split(cases_path: &str, out_path: &str) {
+    let cases: Vec<Value> = read_ndjson(std::path::Path::new(cases_path))
+        .into_iter()
+        .filter(|c| c["res"]["verdict"] == "accept")
+        .collect();
+    let results: Vec<(Vec<Finding>, usize, Option<Value>)> = par_map_with(
+        &cases,
+        threads(),
+        |tid| Analyzer::new(&format!("split{tid}")),
+        |an, idx, case| {
+            let toks = case["prog"].as_array().unwrap();
+            let mut i = 0;
+            let root = parse(toks, &mut i);
+            let Some((split, value, vty)) = split_first(&root, 0) else { return (vec![], 0, None) };
+            let want_end = predicted_end(&case["res"]);
+            let want_out: String =
+                case["io"].as_array().map(|a| a.iter().map(|l| format!("{}\n", l.as_str().unwrap_or(""))).collect()).unwrap_or_default();
+            let fuel_steps = case["steps"].as_u64().unwrap_or(0) as usize;
+            let mut r = Renderer { ann: Ann::Full, naming: Naming::Unique, rng: Rng(idx as u64) };
+            let provider = format!("{PROVIDER_PRELUDE}({} : {})\n", r.term(&value, &[], &[]), ty(&vty));
+            let importer = r.program(&split);
+            // the same import at a second, unused occurrence (every occurrence is a fresh copy)
+            let outer = Node {
+                tok: json!({"k":"let","a":vty,"c":{"t":"os"}}),
+                kids: vec![Node { tok: json!({"k":"import","path":"prov.zy","ty":vty}), kids: vec![] }, shift_up(&split)],
+            };
+            let twice = r.program(&outer);
+            let sig_ok = format!("{PROVIDER_PRELUDE}{}\n", ty(&vty));
+            let sig_bad = format!("{PROVIDER_PRELUDE}{}\n", ty(&other_type(&vty)));
+            let mut findings = Vec::new();
+            let mut variants = 0;
+            let plans: [(&str, &str, Option<&str>, bool); 4] = [
+                ("split", &importer, None, true),
+                ("split+signature", &importer, Some(&sig_ok), true),
+                ("split+wrong-signature", &importer, Some(&sig_bad), false),
+                ("imported-twice", &twice, None, true),
+            ];
+            for (name, main_src, sig, expect_ok) in plans {
+                variants += 1;
+                // (re)create the files of this variant: provider, optional companion signature
+                an.install("prov.zy", &provider);
+                let sig_path = an.path("prov.zyi");
+                match sig {
+                    | Some(text) => {
+                        std::fs::write(&sig_path, text).unwrap();
+                        let _ = an.session.refresh_disk(&sig_path);
+                        let _ = an.session.clear_overlay(&sig_path);
+                    }
+                    | None => {
+                        let _ = std::fs::remove_file(&sig_path);
+                        let _ = an.session.refresh_disk(&sig_path);
+                        let _ = an.session.clear_overlay(&sig_path);
+                    }
+                }
+                // a fresh session per variant: C15 is about staleness, this check is about meaning
+                an.install("prov.zy", &provider);
+                an.reset_session();
+                let (v, analysis) = an.analyze("case.zy", main_src);
+                let mk = |kind: &str, detail: String| Finding {
+                    property: "C09".into(),
+                    kind: kind.into(),
+                    detail,
+                    case: case.clone(),
+                    source: format!("--- case.zy\n{main_src}--- prov.zy\n{provider}--- prov.zyi\n{}", sig.unwrap_or("<absent>")),
+                    mode: name.into(),
+                };
+                match (&v, expect_ok) {
+                    | (Verdict::Accepted, true) => {
+                        let run = run_bounded(&an.session, analysis.as_ref().unwrap(), b"", &[], 40 * (fuel_steps + 50));
+                        let end_s = observed_end(&run.end);
+                        let ok = match want_end.as_str() {
+                            | "fuel" => matches!(run.end, RunEnd::Running | RunEnd::Exit { .. } | RunEnd::Ret | RunEnd::Panic { class: PanicClass::Trap, .. }),
+                            | w => end_s == w && run.stdout == want_out,
+                        };
+                        if !ok {
+                            findings.push(mk("split-changes-behaviour", format!("single file: end={want_end} out={want_out:?}; {name}: end={end_s} out={:?}", run.stdout)));
+                        }
+                    }
+                    | (Verdict::Accepted, false) => findings.push(mk("wrong-signature-accepted", format!("companion declares {}", ty(&other_type(&vty))))),
+                    | (Verdict::Panic { panic }, _) => findings.push(mk("split-panic", format!("{} @ {}", panic.message, panic.file))),
+                    | (other, true) => findings.push(mk("split-rejected", other.short())),
+                    | (_, false) => {}
+                }
+            }
+            let _ = std::fs::remove_file(an.path("prov.zyi"));
+            let sample = (idx % 53 == 0).then(|| json!({"importer_body": importer[PRELUDE.len()..].trim(), "provider_term": provider[PROVIDER_PRELUDE.len()..].trim(), "predicted_end": want_end}));
+            (findings, variants, sample)
+        },
+        |an| an.cleanup(),
+    );
+    let mut findings = Vec::new();
+    let mut variants = 0;
+    let mut splits = 0;
+    let mut samples = Vec::new();
+    for (f, v, sm) in results {
+        findings.extend(f);
+        variants += v;
+        if v > 0 { splits += 1 }
+        if let Some(sm) = sm { if samples.len() < 5 { samples.push(sm) } }
+    }
+    let summary = json!({"cases": cases.len(), "split_programs": splits, "variants": variants, "findings": findings, "samples": samples});
+    std::fs::write(out_path, serde_json::to_string_pretty(&summary).unwrap()).expect("write summary");
+    println!("replay-split: cases={} split={splits} variants={variants} findings={}", cases.len(), findings.len());
 }
